@@ -3,6 +3,7 @@ package server
 import (
 	"fmt"
 	"io"
+	"math"
 	"net/http"
 	"sort"
 
@@ -146,11 +147,23 @@ func sendHTTPResponse(result runtime.Element, err error, w http.ResponseWriter) 
 				// in the dictionary's own key order: names that differ only in letter case
 				// are the same header field, and ranging over the Go map would put their
 				// values on the wire in a different order from one response to the next
-				headerDict := respHeader.(*value.HashMap)
+				// the properties of the object can hold anything: a response whose parts have
+				// the wrong type, or a status no HTTP response can carry, is an error of the
+				// program (answered as such), not a reason for the server to panic
+				headerDict, ok := respHeader.(*value.HashMap)
+				if !ok {
+					respondError(w, fmt.Errorf("HTTP响应之「头部」须为键值列表"))
+					return
+				}
+				statusNum, ok := statusCode.(*value.Number)
+				if !ok || statusNum.GetValue() != math.Trunc(statusNum.GetValue()) || statusNum.GetValue() < 100 || statusNum.GetValue() > 999 {
+					respondError(w, fmt.Errorf("HTTP响应之「状态码」须为 100 至 999 之间的整数"))
+					return
+				}
 				for _, k := range headerDict.GetKeyOrder() {
 					w.Header().Add(k, headerDict.GetValue()[k].String())
 				}
-				w.WriteHeader(int(statusCode.(*value.Number).GetValue()))
+				w.WriteHeader(int(statusNum.GetValue()))
 				w.Write([]byte(contentStr))
 			}
 		default:
